@@ -47,7 +47,7 @@ func genC02(t *rapid.T) Case {
 	c := Case{Prof: "c02", Roots: 1, MaxDir: 100}
 	c.Keys = GenKeys(t, 3, 5, false)
 	c.Ops = GenTxOps(t, TxGenOpts{MinOps: 5, MaxOps: 60, Weights: map[string]int{
-		"begin": 5, "set": 10, "del": 3, "get": 2, "keys": 1, "commit": 4, "rollback": 2, "gc": 3}})
+		"begin": 5, "set": 10, "del": 3, "get": 2, "keys": 1, "commit": 4, "rollback": 2, "gc": 3, "otherdb": 1}})
 	if rapid.IntRange(0, 2).Draw(t, "withScenario") == 0 {
 		sc := GenConflictScenario(t)
 		at := rapid.IntRange(0, len(c.Ops)).Draw(t, "scAt")
@@ -62,7 +62,7 @@ func genC03(t *rapid.T) Case {
 	c := Case{Prof: "c03", Roots: 1, MaxDir: 100}
 	c.Keys = GenKeys(t, 2, 4, false)
 	c.Ops = GenTxOps(t, TxGenOpts{MinOps: 5, MaxOps: 40, Weights: map[string]int{
-		"begin": 6, "set": 12, "del": 4, "commit": 7, "rollback": 2, "gc": 1}})
+		"begin": 6, "set": 12, "del": 4, "commit": 7, "rollback": 2, "gc": 1, "otherdb": 1}})
 	// scripted conflict fragments before, between and after the random operations
 	for n := rapid.IntRange(0, 3).Draw(t, "scenarios"); n > 0; n-- {
 		sc := GenConflictScenario(t)
@@ -110,7 +110,7 @@ func genC13(t *rapid.T) Case {
 	c := Case{Prof: "c13", Roots: 1, MaxDir: 100}
 	c.Keys = GenKeys(t, 2, 4, false)
 	c.Ops = GenTxOps(t, TxGenOpts{MinOps: 8, MaxOps: 50, LateWeight: 35, Weights: map[string]int{
-		"begin": 7, "set": 8, "del": 3, "get": 3, "getr": 1, "keys": 2, "commit": 5, "rollback": 4, "gc": 1}})
+		"begin": 7, "set": 8, "del": 3, "get": 3, "getr": 1, "keys": 2, "commit": 5, "rollback": 4, "gc": 1, "otherdb": 1}})
 	// scripted fragments: a transaction ends in each possible way (commit, conflict-aborted commit,
 	// rollback) and is then used again at once, while observers stay open
 	for n := rapid.IntRange(0, 3).Draw(t, "fragments"); n > 0; n-- {
